@@ -89,7 +89,20 @@ def run(chk):
             def go(eq_type=eq_type, pk=pk):
                 from ..lossenv import user_fn, row_point, row_params, weighted_sq_sum, mean_over, prepend
                 h = user_fn('h_nu', 1, 'scalar0d')
-                het = {'nu': (lambda *a: h(*a[:-2])), 'th': None}
+
+                def het_fn(*a, eq_type=eq_type):
+                    # the user's function is documented as f(t, x, u, params) / f(x, u, params) / f(t, u, params): check the roles
+                    pts_ = a[:-2]
+                    want = {'ODE': ('T',), 'statio_PDE': ('X',), 'nonstatio_PDE': ('T', 'X')}[eq_type]
+                    if len(pts_) != len(want):
+                        raise Finding(f"heterogeneity function called with {len(pts_)} point argument(s), documented: {want}")
+                    for p_, tag in zip(pts_, want):
+                        tags = {at_[0] for e_ in to_at(p_).entries() for at_ in e_.atoms()}
+                        if tags != {tag}:
+                            raise Finding(f"heterogeneity function called with a {sorted(tags)} argument where the "
+                                          f"{'time' if tag == 'T' else 'space point'} is documented (argument order (t, x, u, params))")
+                    return h(*pts_)
+                het = {'nu': het_fn, 'th': None}
                 dyn = E.user_dynamic_loss(eq_type, 2, heterogeneity=het)
                 S = SingleLoss(E, eq_type, 'PINN', d=2, m_u=2, m_res=2, terms=('dyn',), wkind='vector', eq_keys=('nu', 'th'), dyn=dyn)
                 total, terms = S.evaluate(param_keys=pk)
